@@ -1,0 +1,7 @@
+//go:build verif
+
+package zlint
+
+import "github.com/zmap/zlint/v3/lint"
+
+func verifPoint(point string, name string) { lint.VerifPoint(point, name) }
